@@ -15,13 +15,14 @@ import (
 type GeomCase struct {
 	Case  int      `json:"case"`
 	Kind  string   `json:"kind"`
-	Rects [][4]int `json:"rects"` // L, T, R, B
+	Rects [][4]int `json:"rects,omitempty"` // L, T, R, B
 	S     [2]int   `json:"s"`
 	E     [2]int   `json:"e"`
 	Den   int      `json:"den"`
 	// solve: coefficients c0..c3 as num/den pairs, expected real roots as num/den pairs
-	Coef  [][2]int `json:"coef"`
-	Roots [][2]int `json:"roots"`
+	Coef  [][2]int `json:"coef,omitempty"`
+	Roots [][]int  `json:"roots,omitempty"` // num, den, multiplicity
+	Tag   string   `json:"tag,omitempty"`
 }
 
 func cmdGeom(args []string) {
@@ -167,6 +168,26 @@ func runGeomCase(c *GeomCase, w writer) {
 		}
 		e.s(`],"exact":`)
 		e.i(exact)
+		// the triangulation the path was computed on (layer-3 state, judged as a diagnostic only)
+		e.s(`,"tris":[`)
+		for i, t := range geom.Triangulate(c.rects()) {
+			if i > 0 {
+				e.s(",")
+			}
+			e.s("[")
+			for j, p := range []geom.P{t.A, t.B, t.C} {
+				if j > 0 {
+					e.s(",")
+				}
+				e.s("[")
+				e.i(int(math.Round(p.X * float64(c.Den))))
+				e.s(",")
+				e.i(int(math.Round(p.Y * float64(c.Den))))
+				e.s("]")
+			}
+			e.s("]")
+		}
+		e.s("]")
 		if c.Kind == "fit" {
 			// control points in fixed point: units of 1/(1000*Den)... logged in 1/1000 of the case's integer unit
 			e.s(`,"pieces":[`)
